@@ -181,7 +181,7 @@ def build_layer(model, cms, gms, table, decoy=None, decoy_cms=()):
         if gm.get("fill") is not None:
             kw["fill_nulls_with"] = gm["fill"]
         layer.add_metric(Metric(**kw))
-    layer.conn.execute("SET TimeZone='UTC'")
+    layer.conn.execute("SET TimeZone='UTC'"); layer.conn.execute("SET threads=1"); layer.conn.execute("SET disabled_optimizers='statistics_propagation'")
     S.load_table(layer.conn, model["table"], table)
     if decoy is not None:
         S.load_table(layer.conn, decoy["table"], {"cols": table["cols"], "rows": table["rows"][: max(1, len(table["rows"]) // 2)]})
